@@ -9,7 +9,11 @@
    progress.  [v] selects, per defect found and since fixed in /repo, the original or the HEAD
    behaviour (Model.v): [Head] (= [Repaired]) is /repo HEAD, all five fixes committed (8396862,
    82065c3, b0a3819, 466d014, e4bb362); [BeforeRaceFixes] is /repo before the last two;
-   [Defective] is /repo before any of them.  No finding of this property is open.
+   [Defective] is /repo before any of them.
+   Open findings (KNOWN_FINDINGS.txt): stale heartbeats.  HEAD handles a heartbeat that is older than one it
+   has already handled (fix patch proposed) and one built before its own peer-loss detection (specification
+   only).  Stale.v says when a delivery is stale; [srun] with [mkSfix true true] is the filtered behaviour,
+   [mkSfix false false] is HEAD.
    A theorem with a hypothesis [fix_xx v = true] needs that fix (so it holds for HEAD); the matching
    [_refuted] example is the historical witness: the same statement fails for the original behaviour.
    Theorems without such a hypothesis hold for every variant.
@@ -17,7 +21,7 @@
    peerNodeID, and a heartbeat lacking this group's status is the event [ETouch]: every theorem over
    [run] / [frun] histories therefore also speaks about a group inside a multi-group Manager.
    [ids_ok cs]: the two node ids are non-empty and different Go strings. *)
-From OV Require Import Common.Base C10.Model C10.Fine C10.Proofs C10.FineAtomic C10.FineProofs.
+From OV Require Import Common.Base C10.Model C10.Fine C10.Stale C10.Proofs C10.FineAtomic C10.FineProofs.
 Local Open Scope Z_scope.
 
 (* ---- election is deterministic (a function) and antisymmetric ---- *)
@@ -249,12 +253,43 @@ Example C10_effective_priority_refuted :
 Proof. vm_compute. repeat split; intros; discriminate. Qed.
 Print Assumptions C10_effective_priority_refuted.
 
-(* ---- stale heartbeats (observation, not repaired: see notes/C10.md "Audit response") ---- *)
-(* A (priority 200) is STANDBY after an operator switchover, B (100) is ACTIVE and has a heartbeat in flight.
-   A loses its peer (STANDBY_ALONE); the heartbeat sent BEFORE the loss arrives afterwards: A re-elects,
-   wins and is ACTIVE next to B.  HeartbeatMessage.Sequence / TimestampNs are never compared, so the code
-   cannot tell this heartbeat from a fresh one; C10_dual_active_resolves then removes the dual-active pair
-   within one fresh exchange. *)
+(* ---- stale heartbeats (open findings stale-heartbeat-built-before-peer-loss / -older-than-handled) ---- *)
+(* what the staleness filter lets through to a handler was built after the receiver's last peer-loss
+   detection (fix_sl) and is not older than anything handled since (fix_so) *)
+Theorem C10_stale_filter_sound : forall f t p e w i,
+  (fst (sdecide f t p e) = EDeliver w i \/ fst (sdecide f t p e) = ETouch w i) ->
+  (e = EDeliver w i \/ e = ETouch w i) /\
+  forall tag, nth_error (tags_to w t) (i mod length (queue_to w p))%nat = Some tag ->
+    (fix_sl f = true -> (lost_of w t < tag)%nat) /\ (fix_so f = true -> (last_of w t <= tag)%nat).
+Proof. exact sdecide_sound. Qed.
+Print Assumptions C10_stale_filter_sound.
+
+(* HEAD, no filter.  A (priority 200) is STANDBY after an operator switchover, B (100) is ACTIVE and has a
+   heartbeat in flight.  A loses its peer (STANDBY_ALONE); the heartbeat built BEFORE the loss arrives afterwards:
+   A re-elects, wins and is ACTIVE although nothing says the peer is back.  With the filter A stays STANDBY_ALONE. *)
+Example C10_stale_before_loss_refuted :
+  let cs := (mkCfg [49%N] 200 false 0 0, mkCfg [50%N] 100 false 0 0) in
+  let es := [EStart A; EStart B; ESend A; EDeliver B 0; EDeliver A 0; ESwLocal A false; ESwRemote B;
+             ESend B; EPeerLost A; EDeliver A 0] in
+  n_st (p_a (snd (srun Head (mkSfix false false) cs (sinit, init_pair cs) es))) = Active /\
+  n_st (p_a (snd (srun Head (mkSfix true true) cs (sinit, init_pair cs) es))) = StandbyAlone /\
+  snd (srun Head (mkSfix false false) cs (sinit, init_pair cs) es) = run Head cs (init_pair cs) es.
+Proof. vm_compute. repeat split. Qed.
+Print Assumptions C10_stale_before_loss_refuted.
+
+(* HEAD, no filter.  B's STANDBY snapshot built before the switchover is delivered after the newer ACTIVE one:
+   A (STANDBY, wins) applies the dual-standby rule to the outdated snapshot and undoes the switchover. *)
+Example C10_stale_reordered_refuted :
+  let cs := (mkCfg [49%N] 200 false 0 0, mkCfg [50%N] 100 false 0 0) in
+  let es := [EStart A; EStart B; ESend A; EDeliver B 0; EDeliver A 0; ESend B; ESwLocal A false; ESwRemote B;
+             ESend B; EDeliver A 1; EDeliver A 0] in
+  n_st (p_a (snd (srun Head (mkSfix false false) cs (sinit, init_pair cs) es))) = Active /\
+  n_st (p_b (snd (srun Head (mkSfix false false) cs (sinit, init_pair cs) es))) = Active /\
+  n_st (p_a (snd (srun Head (mkSfix true false) cs (sinit, init_pair cs) es))) = Standby.
+Proof. vm_compute. repeat split. Qed.
+Print Assumptions C10_stale_reordered_refuted.
+
+(* the first witness without the bookkeeping; the dual-active pair is resolved by the next fresh exchange *)
 Example C10_stale_heartbeat_repromotes :
   let cs := (mkCfg [49%N] 200 false 0 0, mkCfg [50%N] 100 false 0 0) in
   let es := [EStart A; EStart B; ESend A; EDeliver B 0; EDeliver A 0; ESwLocal A false; ESwRemote B;
@@ -369,6 +404,38 @@ Theorem C10_fine_priority_matches_count : forall v cs es w,
 Proof. exact fine_priority_matches_count. Qed.
 Print Assumptions C10_fine_priority_matches_count.
 
+(* HISTORY level, every interleaving: from any moment at which node w has no call in progress and is STANDBY or
+   STANDBY_ALONE, it can only be active later if in between a switchover reached it, a down notification for it
+   was handled, it detected a peer loss, or it handled a heartbeat (cause-capable events; which of them promote
+   and when is C10_fine_promotion_causes / C10_no_self_promotion_any_state) *)
+Theorem C10_fine_no_self_promotion : forall v cs w es1 es2,
+  let s1 := frun v cs (finit cs) es1 in
+  thrs_of w s1 = [] ->
+  (n_st (node_of w (f_p s1)) = Standby \/ n_st (node_of w (f_p s1)) = StandbyAlone) ->
+  is_active (n_st (node_of w (f_p (frun v cs s1 es2)))) = true ->
+  existsb (cause_capable w) es2 = true.
+Proof. exact fine_no_self_promotion. Qed.
+Print Assumptions C10_fine_no_self_promotion.
+
+(* ... and as long as none of them happens the group keeps its state and stays quiescent (any start state) *)
+Theorem C10_fine_quiet : forall v cs w es s,
+  thrs_of w s = [] -> n_st (node_of w (f_p s)) <> Init ->
+  forallb (fun e => negb (cause_capable w e)) es = true ->
+  thrs_of w (frun v cs s es) = [] /\
+  n_st (node_of w (f_p (frun v cs s es))) = n_st (node_of w (f_p s)).
+Proof. exact quiet_run. Qed.
+Print Assumptions C10_fine_quiet.
+
+(* HISTORY level, every interleaving (HEAD: fix_if, fix_ia): effective priority and down count are what the
+   interface notifications say, taken in the order in which their m.mu sections ran ([flog]) *)
+Theorem C10_fine_effective_priority : forall v cs es w,
+  fix_if v = true -> fix_ia v = true -> cfg_small (fst cs) -> cfg_small (snd cs) ->
+  let n := node_of w (f_p (frun v cs (finit cs) es)) in
+  let log := flog v cs (finit cs) es in
+  n_eff n = spec_eff (cfg_of w cs) w log /\ n_cnt n = spec_cnt (cfg_of w cs) w log.
+Proof. exact fine_effective_priority. Qed.
+Print Assumptions C10_fine_effective_priority.
+
 (* before e4bb362: two interface events whose m.mu sections run in one order and whose AdjustPriority calls run in
    the other: both interfaces down, no call in progress, priority decremented once
    (was reproduced on the real code by stress only: 3 of 400000 overlapping pairs, notes/C10.md) *)
@@ -380,6 +447,16 @@ Example C10_fine_priority_matches_count_refuted :
   n_eff (p_a (f_p (frun Repaired cs_design (finit cs_design) es))) = 100.
 Proof. vm_compute. repeat split. Qed.
 Print Assumptions C10_fine_priority_matches_count_refuted.
+
+(* ---- equal node ids (configuration error, excluded by ids_ok) ---- *)
+(* with equal ids and equal priorities both nodes lose every tie: both STANDBY, for ever *)
+Example C10_equal_ids_observation :
+  let cs := (mkCfg [120%N] 100 false 0 0, mkCfg [120%N] 100 false 0 0) in
+  let s := run Head cs (init_pair cs) [EStart A; EStart B; ESend A; EDeliver B 0; EDeliver A 0] in
+  absn (p_a s, p_b s) = (Standby, true, Standby, true) /\
+  absn (xchgs Head cs [A; B; A; B] (p_a s, p_b s)) = (Standby, true, Standby, true).
+Proof. vm_compute. repeat split. Qed.
+Print Assumptions C10_equal_ids_observation.
 
 (* ---- non-vacuity ---- *)
 Example C10_nonvacuous :
